@@ -3,6 +3,42 @@
 import json, sys
 
 CLAIMED = {
+    "C01": dict(
+        category="exploration",
+        technique="bounded-exhaustive enumeration of hostile inputs (complete field domains, all lines of <= 2 bytes, all digit counts), explicit-state history search to depth 3/4 and the full 1152-set option product, executed on the real reader thread in a release-like and an overflow-checked build plus the real release/dev CLI binaries",
+        text="Every value of each frame field in turn (quick: low 8 bits + single bits; thorough: full domains), every DF at both lengths, every line of 0-2 arbitrary bytes, every digit count 0..64, 70 KiB lines and byte-class interleavings are fed, as first frame and as update, under {default,-U,-R,-U -R}, followed by a well-formed sentinel line; histories over a 30-line hostile/benign alphabet are explored to depth 3 (4); all 1152 option sets run on a mixed stream with stdout captured; the hostile file, the bundled recordings and a stride of the option product run on the real release and dev binaries. The verdict is join()==Ok, termination within the watchdog, and the sentinel row present, in both arithmetic profiles.",
+        note="Trusted: the watchdog (20 s on the monotonic clock) as the definition of 'wedge'. Field products (two hostile fields at once) beyond the listed ones and option values outside {-u -1,0,3; -d 1,60} are not covered.",
+        design="DESIGN.md §5 C01", engine="E1 sweep + E2 explorer + CLI seam"),
+    "C07": dict(
+        category="exploration",
+        technique="bounded-exhaustive enumeration of all 64 codes in each of the 8 character positions (x10 fillings), all 64^2 adjacent pairs, all TC x CA, on both paths and four option sets through the real reader thread; BDS 2,0 under three capability states; W column via the real print",
+        text="Every character position with every 6-bit code, every adjacent pair (they share nibbles), every TC 1-4 x CA 0-7, as first frame and as update of a row with a sentinel callsign, under {default,-U,-R,-U -R}; the same strings as BDS 2,0 in DF20/DF21 with the capability gate closed (row created by DF20, CA 0) and open (CA 5, -R); and the printed W/CALLSIGN columns for all TC x CA.",
+        note="Trusted: the IA5 subset mapping and the wake table as stated. Random 48-bit strings are not part of the verdict (the per-position and adjacent-pair families cover every nibble boundary).",
+        design="DESIGN.md §5 C07", engine="E1 sweep + E4 print"),
+    "C13": dict(
+        category="fault_enumeration",
+        technique="deviation-bounded fault enumeration: all valid streams up to length 3/4 over 8 frames x all placements of d = 0,1,2(,3) junk lines from a 16-symbol alphabet, file source and scripted TCP peer, on the real reader thread; oracle = table equality with the clean stream",
+        text="Valid streams (all sequences up to length 3, 4 in thorough, over 8 frames of two aircraft, plus three recorded excerpts) are perturbed by inserting junk lines (empty, CR, wrong digit counts, truncated frame, text, NUL, invalid UTF-8 of four kinds, 70 KiB lines, bad-parity frame) at every combination of positions with d = 0, 1, 2 deviations (3 in thorough); the table must equal the clean stream's table bit for bit and the reader must end Ok. The TCP source is exercised with a scripted loopback peer for streams up to length 2 with d <= 1.",
+        note="Trusted: frozen clock (so equal tables include equal time stamps). Junk outside the 16-symbol alphabet and more than 2 (3) insertions are not covered.",
+        design="DESIGN.md §5 C13", engine="E3 fault enumeration"),
+    "C14": dict(
+        category="exploration",
+        technique="bounded-exhaustive enumeration of all 32 -i subsets (3 spellings) x ~220 row states covering every column blank/min/max/typical/negative/fractional, rendered by the real Planes::print and the real CLI, against an independent column/cell oracle",
+        text="For every subset of the five column groups and every row state of a catalogue that puts each printable field through blank, minimum, largest-fitting, typical, negative and fractional values (with the other fields all blank and all filled), the real print routine is run with stdout captured; the header must list exactly the groups requested, row/header/separator must have equal display width whenever all values fit, and cutting the row at the header's column boundaries must give, per column, that parameter's value (numbers parsed back, right-aligned; text exact, left-aligned; blank when unknown). Tables reached by frames are checked the same way through the real release CLI with a frozen clock.",
+        note="Trusted: the independent column list per -i letter. One-character source markers in separator positions are not judged. Values that do not fit their column are excluded from the width rule (as stated).",
+        design="DESIGN.md §5 C14", engine="E4 render + CLI seam"),
+    "C15": dict(
+        category="exploration",
+        technique="bounded-exhaustive enumeration of all tables of 1..4(5) rows over 6 key-value classes (incl. blanks, ties, same-integer floats) x all -o strings of length <= 2(3) over 12 key letters, printed by the real Planes::print, permutation and monotonicity oracle",
+        text="Every table of up to 4 rows (5 thorough) whose sort-key field takes every combination of {blank, low, mid, tie, same-integer neighbour, high} is printed under every -o string up to length 2 (3 thorough) over the twelve key letters (plus '', 'x', 'sx'; as one -o and as repeated -o): the address column must be a permutation of the table, the last recognised key must be monotone over the rows where it is known, and without a recognised key the rows must be in ascending address order.",
+        note="Trusted: direction is judged only where the statement gives it (s, a ascending, A descending); v/V, N/S, W/E, d/D, c may be monotone either way.",
+        design="DESIGN.md §5 C15", engine="E4 render"),
+    "C18": dict(
+        category="fault_enumeration",
+        technique="fault-sequence enumeration: every script of length <= 4 (6) over five TCP peer behaviours, run against the real reader thread with a scripted loopback peer and a gated sleep, oracle = liveness, one 5 s pause per failed attempt, final table equal to the file source's",
+        text="Every sequence up to length 4 (6 in thorough: 19,531 scripts) over {refuse, accept+close, accept+frames+close, accept+partial line+reset, accept+junk+close}, followed by a healthy connection, is played by a scripted loopback peer against the real TCP reader; the interposed sleep records every pause and blocks until the script releases it, so each attempt is a sequenced event. The reader must stay alive, pause exactly once for about 5 s after each failed attempt, and end with the table the file source produces from the same lines (every aircraft learned earlier still present); the partial line is varied over all 27 prefix lengths. Thorough repeats the length-1 scripts against the real CLI with real pauses.",
+        note="Trusted: clock_nanosleep interposition (self-tested at start-up). Real network timing below the granularity connect/accept/send/close/reset is not explored; a partial line may or may not reach the reader before the reset (both admitted).",
+        design="DESIGN.md §5 C18", engine="E3 fault enumeration"),
     "C10": dict(
         category="model_checking",
         technique="explicit-state search of the Comm-B gating machine (28 actions, all orders to depth 4/5 x 4 option sets, each transition on the real reader thread) + exhaustive one-field-at-a-time register sweeps, against a reference gate/validity/Doc 9871 decoder",
